@@ -228,9 +228,16 @@ pub fn gen_scenario(family: &'static str, seed: u64) -> Option<Scen> {
                     (_, 7) => TOp::Get { order: *rng.pick(small_orders), class: small_class, slot: slot_choice(&mut rng, &cfg, small_class, t, slot_mode) },
                     _ => TOp::Put { idx: rng.below(8), part: None, slot: None },
                 },
-                "split-race" => match rng.below(10) {
-                    0..=6 => TOp::Put { idx: rng.below(8), part: None, slot: slot_choice(&mut rng, &cfg, small_class, t, slot_mode) },
-                    7 => TOp::Get { order: *rng.pick(small_orders), class: small_class, slot: slot_choice(&mut rng, &cfg, small_class, t, slot_mode) },
+                "split-race" => match rng.below(12) {
+                    0..=5 => TOp::Put { idx: rng.below(8), part: None, slot: slot_choice(&mut rng, &cfg, small_class, t, slot_mode) },
+                    6 | 7 => TOp::Get { order: *rng.pick(small_orders), class: small_class, slot: slot_choice(&mut rng, &cfg, small_class, t, slot_mode) },
+                    8..=10 => {
+                        // targeted allocation somewhere inside the huge frame that is being split: succeeds only
+                        // for frames another thread has freed, never for the parts still held
+                        let hf = split_parts.first().map(|b| b.frame / HUGE_FRAMES * HUGE_FRAMES).unwrap_or(0);
+                        let o = *rng.pick(&[0usize, 0, 0, 3, 6]);
+                        TOp::GetAt { frame: hf + (rng.below(HUGE_FRAMES >> o) << o), order: o, class: small_class, slot: slot_choice(&mut rng, &cfg, small_class, t, slot_mode) }
+                    }
                     _ => TOp::Drain,
                 },
                 "drain-race" => match (t, rng.below(10)) {
@@ -368,7 +375,7 @@ pub fn run(args: &Args) -> Report {
     let fams: Vec<&'static str> = match args.extra.get("family") {
         Some(f) => FAMILIES.iter().copied().filter(|x| x == f).collect(),
         None => match prop {
-            "C01" => vec!["rows-race", "rows-race", "narrow-wide", "multi-huge", "target-same", "alloc-free", "shared-slot", "mixed"],
+            "C01" => vec!["rows-race", "split-race", "narrow-wide", "multi-huge", "target-same", "alloc-free", "shared-slot", "mixed", "rows-race"],
             "C03" => vec!["split-race", "drain-race", "shared-slot", "rows-race", "multi-huge", "target-same", "mixed", "alloc-free"],
             "C21" => vec!["split-race", "rows-race", "shared-slot", "mixed", "drain-race", "multi-huge", "narrow-wide"],
             "C05" => vec!["alloc-free", "split-race", "rows-race", "multi-huge", "narrow-wide", "mixed"],
